@@ -381,6 +381,16 @@ func (rr *RelayRun) exec(k *sim.Kernel, op RelayOp) {
 		k.Settle()
 	case "advance":
 		k.Advance(time.Duration(op.Ms) * time.Millisecond)
+	case "pull_refused":
+		// start_relay_pull towards an address nothing listens on, without retries (op.Pub: stream number)
+		name := StreamName(op.Pub)
+		body, _ := json.Marshal(map[string]interface{}{"url": "rtmp://10.9.9.99:1935/live/" + name, "stream_name": name, "pull_timeout_ms": 3000, "pull_retry_num": 0, "auto_stop_pull_after_no_out_ms": -1})
+		call := rr.W.ApiStart(fmt.Sprintf("api-pullrefused-%d", k.Step()), "/api/ctrl/start_relay_pull", body)
+		k.Settle()
+		if call.C != nil {
+			call.C.Leave(false)
+		}
+		k.Fault("pull_origin_refuses")
 	case "rtsp_pull_start", "rtsp_pull_release", "rtsp_origin_close":
 		rr.execRtspPull(k, op)
 	case "start_pub":
